@@ -158,7 +158,7 @@ func runReload(seed uint64, n int, tier string, out string, replay string) {
 			}
 			accepted := ce == "" || strings.Contains(acc, ce)
 			if rec.Code != 200 || !accepted || err != nil || !bytes.Equal(dec, bodyFor(path)) {
-				sum.ImplViolations = append(sum.ImplViolations, map[string]interface{}{"property": "C20", "kind": "malformed-after-" + ev, "which": which, "event_while_parked": ev,
+				sum.ImplViolations = append(sum.ImplViolations, map[string]interface{}{"property": "C20+C16", "kind": "malformed-after-" + ev, "which": which, "event_while_parked": ev,
 					"upstream_accept_encoding_before": ae0, "client_accept_encoding": acc, "status": rec.Code, "content_encoding": ce, "x_status": rec.Header().Get("X-Status"),
 					"decode_error": fmt.Sprint(err), "decoded_len": len(dec), "want_len": len(bodyFor(path))})
 			}
